@@ -117,7 +117,7 @@ def gen_history(rng: Any, services: dict[int, dict[int, Any]], n: int) -> list[d
             elif kind == "cdtc":
                 op["pdu"] = rng.choice(["14ffffff", "14000000", "14ffff"])
             else:
-                op["pdu"] = rng.choice(["1902ff", "190200", "1901ff", "1902", "19"])
+                op["pdu"] = rng.choice(["1902ff", "190200", "1901ff", "1902", "19", "1982ff", "1981ff", "198200"])
         g = rng.random()
         op["gap"] = 0 if g < 0.6 else rng.choice([0.1, 2.0, 9.0]) if g < 0.92 else rng.choice([11.0, 30.0])
         ops.append(op)
